@@ -20,6 +20,10 @@ def _account_stream(stats, plan, tr):
             stats.probe('must_skip_demands', sum(1 for s in lay['segs'] if s['must_skip']))
         if any('B' in it['cls'] for it in plan['items']):
             stats.probe('embedded_signature_streams')
+        if any('D' in it['cls'] for it in plan['items']):
+            stats.probe('streams_with_a_definition_message')
+            if plan['knobs'].get('filter'):
+                stats.probe('filtered_streams_with_a_definition_message')
         if any(x for x in plan['seps']):
             stats.probe('streams_with_noise')
         if any(bytes.fromhex(x).endswith(b'BUF') for x in plan['seps'][:-1]):
@@ -150,6 +154,10 @@ def _account_def(stats, plan, tr):
                 stats.probe('reused_descriptor_list_after_redefinition')
         if it['kind'] == 'def':
             stats.probe('b_entries', len(it['b']))
+            if not it['b']:
+                stats.probe('definitions_without_b_entries')
+            if not it['d']:
+                stats.probe('definitions_without_d_entries')
             stats.probe('d_entries', len(it['d']))
             if it.get('redefined'):
                 stats.probe('redefining_definitions')
